@@ -1,5 +1,8 @@
 """C03 — log and metric ingest decodes every entry to exactly one faithful row.
 
+Second session: parseLabelsLokiFormat (model/LokiLabels.v), parseTime (model/LokiTime.v) and the walk of pushRequestDec over the JSON
+document (model/LokiJson.v) are transcribed and tied at their own level (run_labels, run_time, the jcase evaluation of every Loki JSON body).
+
 model/Decode.v transcribes the seven decoders of writer/utils/unmarshal down to the onEntries callback and
 builder.go onEntries/flush (chunking); props/C03.v proves, for every body, every fingerprint function, every
 cache and every value of the two flush thresholds, that the concatenated sample rows are exactly one row per
@@ -523,7 +526,7 @@ def run_time(ck):
 
 def run(ck):
     ck.trusted += [
-        "C03: the wire decoders (jx, protobuf, the telegraf Influx parser, the Datadog tag regexp, text/scanner for Loki label strings) are crossed by the correspondence only; the harness's serialisers are trusted",
+        "C03: the tokenizers / wire decoders (jx, protobuf, the telegraf Influx parser, the Datadog tag regexp) are crossed by the correspondence only; time.Parse(RFC3339) and unicode.IsLetter/IsDigit are oracles of the text models (tables computed by the harness with the same library calls); the harness's serialisers are trusted except for Loki JSON, whose document tree is walked by the model itself, and Loki label strings / timestamp texts, which the model parses itself",
         "C03: fingerprintLabels and len(encodeLabels) are oracles of the model (theorems hold for every such function); per case they are the table read off the implementation's own time_series rows, label lists compared as multisets (permutation invariance of the fingerprint is C04's theorem)",
         "C03: the fingerprint cache is abstract in the theorems; the harness runs with the never-hit cache of a clustered deployment or a per-request set cache; Go map iteration order (Influx fields, OTLP attributes) is not modelled: rows of one Influx line are compared as a multiset",
         "C03: state kept by the process between requests is looked for by decoding all bodies of a run (and explicit histories) in one process and checking every body against the model of that body alone; package-level variables of writer/utils/unmarshal are listed in the evidence (package_state)",
